@@ -3,6 +3,15 @@
 package corpus
 
 import (
+	"encoding/json"
+	"fmt"
+	"os"
+	"os/exec"
+	"path/filepath"
+	"sort"
+	"strings"
+	"sync"
+
 	"verif/checker/core"
 )
 
@@ -12,10 +21,157 @@ type Generated struct {
 	Module *core.Module
 }
 
-// Build generates and loads the corpus for the tier.
+var quickSet = map[string]bool{"t-prims": true, "t-incl": true, "t-union": true, "t-named": true, "r-annot": true, "r-simple": true, "checked-in": true}
+
+var scratchRoot string
+
+// Build builds the generator harness from the current tree, generates the
+// corpus for the tier and loads every generated module.
 func Build(verifDir, tier string) ([]*Generated, error) {
-	return nil, nil
+	var err error
+	base := os.Getenv("VERIF_SCRATCH")
+	if base == "" {
+		base = filepath.Join(os.Getenv("HOME"), "scratch")
+	}
+	if err = os.MkdirAll(base, 0o755); err != nil {
+		base = os.TempDir()
+	}
+	scratchRoot, err = os.MkdirTemp(base, "restlicheck-corpus-")
+	if err != nil {
+		return nil, &core.LoadError{Msg: "cannot create scratch dir: " + err.Error()}
+	}
+	gen := filepath.Join(scratchRoot, "gen-v2")
+	cmd := exec.Command("go", "build", "-o", gen, ".")
+	cmd.Dir = filepath.Join(verifDir, "gen", "v2")
+	cmd.Env = core.Env()
+	if out, err := cmd.CombinedOutput(); err != nil {
+		return nil, &core.LoadError{Msg: "the generator harness does not build against the current tree (the generator packages of /repo/v2 do not compile):\n" + string(out)}
+	}
+	type job struct {
+		name, manifest, overlay string
+		failing                 bool
+	}
+	var jobs []job
+	dir := filepath.Join(verifDir, "corpus", "v2")
+	ents, err := os.ReadDir(dir)
+	if err != nil {
+		return nil, &core.LoadError{Msg: err.Error()}
+	}
+	for _, e := range ents {
+		if !strings.HasSuffix(e.Name(), ".json") {
+			continue
+		}
+		name := strings.TrimSuffix(e.Name(), ".json")
+		if tier == "quick" && !quickSet[name] {
+			continue
+		}
+		j := job{name: name, manifest: filepath.Join(dir, e.Name())}
+		if st, err := os.Stat(filepath.Join(dir, "overlays", name)); err == nil && st.IsDir() {
+			j.overlay = filepath.Join(dir, "overlays", name)
+		}
+		jobs = append(jobs, j)
+	}
+	// the checked-in manifest
+	jobs = append(jobs, job{name: "checked-in", manifest: filepath.Join(core.RepoRoot, "v2", "restlidata", "generated", "go-restli-manifest.gr.json")})
+	if tier == "thorough" {
+		fents, _ := os.ReadDir(filepath.Join(dir, "failing"))
+		for _, e := range fents {
+			if strings.HasSuffix(e.Name(), ".json") {
+				jobs = append(jobs, job{name: "failing/" + strings.TrimSuffix(e.Name(), ".json"), manifest: filepath.Join(dir, "failing", e.Name()), failing: true})
+			}
+		}
+	}
+	if len(jobs) < 3 {
+		return nil, &core.LoadError{Msg: fmt.Sprintf("corpus has only %d manifests", len(jobs))}
+	}
+	out := make([]*Generated, len(jobs))
+	var wg sync.WaitGroup
+	sem := make(chan struct{}, 8)
+	for i, j := range jobs {
+		wg.Add(1)
+		go func(i int, j job) {
+			defer wg.Done()
+			sem <- struct{}{}
+			defer func() { <-sem }()
+			g := &Generated{}
+			out[i] = g
+			raw, _ := os.ReadFile(j.manifest)
+			var m map[string]interface{}
+			_ = json.Unmarshal(raw, &m)
+			outDir := filepath.Join(scratchRoot, strings.ReplaceAll(j.name, "/", "_"))
+			g.Corpus = &core.Corpus{Name: j.name, Manifest: m, Raw: raw, Runtime: "v2", OutDir: outDir, Failing: j.failing}
+			run := func(dst string) (string, error) {
+				args := []string{j.manifest, dst}
+				if j.overlay != "" {
+					args = append(args, j.overlay)
+				}
+				c := exec.Command(gen, args...)
+				c.Env = core.Env()
+				b, err := c.CombinedOutput()
+				return string(b), err
+			}
+			if msg, err := run(outDir); err != nil {
+				g.Corpus.Failure = "generator failed: " + lastLines(msg, 6)
+				g.Module = core.EmptyModule("corpus:" + j.name)
+				return
+			}
+			if tier == "thorough" {
+				// determinism as a build-step observation: a second run must produce the same bytes
+				second := outDir + "_second"
+				if _, err := run(second); err == nil {
+					g.Corpus.SecondRunDiff = diffTrees(outDir, second)
+				}
+				os.RemoveAll(second)
+			}
+			if j.name == "checked-in" {
+				// its packages are part of the v2 module itself (type-checked there); only the bytes are compared (R12.2)
+				g.Module = core.EmptyModule("corpus:" + j.name)
+				return
+			}
+			mod, err := core.LoadModule("corpus:"+j.name, outDir, []string{"./..."}, nil)
+			if err != nil {
+				g.Corpus.Failure = "generated code does not type-check: " + lastLines(err.Error(), 8)
+				g.Module = core.EmptyModule("corpus:" + j.name)
+				return
+			}
+			g.Module = mod
+		}(i, j)
+	}
+	wg.Wait()
+	sort.Slice(out, func(a, b int) bool { return out[a].Corpus.Name < out[b].Corpus.Name })
+	return out, nil
+}
+
+func lastLines(s string, n int) string {
+	lines := strings.Split(strings.TrimSpace(s), "\n")
+	if len(lines) > n {
+		lines = lines[len(lines)-n:]
+	}
+	return strings.Join(lines, " | ")
+}
+
+// diffTrees returns the first differing file ("" when identical).
+func diffTrees(a, b string) string {
+	res := ""
+	filepath.Walk(a, func(p string, info os.FileInfo, err error) error {
+		if err != nil || info.IsDir() || res != "" {
+			return nil
+		}
+		rel, _ := filepath.Rel(a, p)
+		x, _ := os.ReadFile(p)
+		y, err2 := os.ReadFile(filepath.Join(b, rel))
+		if err2 != nil || string(x) != string(y) {
+			res = rel
+		}
+		return nil
+	})
+	return res
 }
 
 // Cleanup removes scratch directories.
-func Cleanup(gs []*Generated) {}
+func Cleanup(gs []*Generated) {
+	if scratchRoot != "" {
+		os.RemoveAll(scratchRoot)
+		scratchRoot = ""
+	}
+}
